@@ -17,6 +17,15 @@ def SMap.keys (m : SMap) : List String := m.map (·.1)
 /-- keys are pairwise distinct (what a Python mapping guarantees) -/
 def SMap.WF (m : SMap) : Prop := m.keys.Nodup
 
+def Obj.exclEntries (o : Obj) : List (String × String × FVal) :=
+  (o.tspec.fields.map (·.name)).filterMap o.exclEntry
+
+/-- two objects do not agree on any exclusive field at its unique site
+    (`a` is the one stored earlier: Python evaluates `earlier == later`) -/
+def NoClash (a b : Obj) : Prop :=
+  ∀ ea ∈ a.exclEntries, ∀ eb ∈ b.exclEntries,
+    ea.1 = eb.1 → ea.2.1 = eb.2.1 → ea.2.2.pyEq eb.2.2 = false
+
 /-- value-level round trip through `value_to_json_value` / `value_from_json_value` -/
 def RT (sp : Spec) (s : Setting) (v : Val) : Prop :=
   ∃ j, valueToJson s v = .ok j ∧ valueFromJson sp s j = .ok v
